@@ -56,3 +56,12 @@ Theorem C03_writer_queue_bounded : forall maxq fast ms, 0 <= maxq ->
   Wire.count_pieces (fold_left (Wire.wq_op maxq fast) ms []) <= maxq.
 Proof. exact WireProofs.writer_queue_bounded. Qed.
 Print Assumptions C03_writer_queue_bounded.
+
+(* the key under which a block sits in the shared read cache is fixed width (id, piece index, block
+   number): different triples never share a key, so a request is never answered from the cached block
+   of another piece or another torrent (behaviour tied by kind 305) *)
+From RainV Require Import Wire WireProofs CacheKey.
+Theorem C03_cache_key_injective : forall id id' p p' b b', length id = length id' -> u32 p -> u32 p' -> u32 b -> u32 b' ->
+  cache_key id p b = cache_key id' p' b' -> id = id' /\ p = p' /\ b = b'.
+Proof. exact cache_key_injective. Qed.
+Print Assumptions C03_cache_key_injective.
